@@ -514,9 +514,22 @@ impl LinearModel {
         out.push_str(&format!(" obj: {}\n", objective));
 
         out.push_str("Subject To\n");
+        // generated names must not collide with names the user wrote (a user row may
+        // itself be called `c2`) nor with each other
+        let mut taken: Vec<String> = self
+            .constraints
+            .iter()
+            .map(|c| c.name())
+            .filter(|name| !name.is_empty())
+            .collect();
         for (i, c) in self.constraints.iter().enumerate() {
             let name = if c.name().is_empty() {
-                format!("c{}", i + 1)
+                let mut candidate = format!("c{}", i + 1);
+                while taken.contains(&candidate) {
+                    candidate.push('_');
+                }
+                taken.push(candidate.clone());
+                candidate
             } else {
                 c.name()
             };
